@@ -23,7 +23,7 @@ def general_position(P):
     return True
 
 
-def fit_case(cid, kind, P, Hd, order, queries, s, tolerance=1e-12):
+def fit_case(cid, kind, P, Hd, order, queries, s, tolerance=1e-12, xdtype=None):
     """P: rows <<y, x_low..>> integers; Hd: extra high-dimensional columns (integers); order: column order
     of low_dim_idx in X; s: dyadic scale divisor of all values."""
     from skmatter.sample_selection import DirectionalConvexHull
@@ -39,6 +39,10 @@ def fit_case(cid, kind, P, Hd, order, queries, s, tolerance=1e-12):
     for k, c in enumerate(hcols):
         X[:, c] = Hd[:, k] / s
     y = P[:, 0] / s
+    if xdtype is not None:
+        # features of another dtype (integer counts, single precision) with fractional float64 targets: only the targets carry
+        # the dyadic scale then, which is a positive rescaling of the target axis (distances * s are still in units of P)
+        X = (X * s).astype(xdtype)
     c = {"id": cid, "kind": kind, "Pt": P.astype(int).tolist(), "sel": [], "sgn": [], "dq": [], "hres": [], "hnan": [], "queries": [],
          "raised": False, "nbase": 0, "basesel": [], "basedq": [], "A": 1, "B": 0}
     try:
@@ -60,6 +64,8 @@ def fit_case(cid, kind, P, Hd, order, queries, s, tolerance=1e-12):
                 Xq = np.zeros((1, ncol))
                 for k, cc in enumerate(cols):
                     Xq[0, cc] = qx[k] / s
+                if xdtype is not None:
+                    Xq = (Xq * s).astype(xdtype)
                 dqv = float(m.score_samples(Xq, np.array([qy / s]))[0]) * s
                 # raw sign for queries: the specification only demands a sign where its exact offset is non-zero
                 c["queries"].append({"y": int(qy), "x": [int(v) for v in qx], "sgn": int(np.sign(dqv)),
@@ -104,7 +110,8 @@ def gen(args):
         if d == 1 and rng.random() < 0.5:
             P = P.copy(); P[:, 0] *= int(rng.choice([64, 1024]))
             queries = [(qy * 64, qx) for qy, qx in queries]
-        base = fit_case(cid, "base", P, Hd, order, queries, s, tol)
+        xdt = [None, None, None, np.int64, np.float32][int(rng.integers(5))]
+        base = fit_case(cid, "base", P, Hd, order, queries, s, tol, xdt)
         out.append(base)
         if base["raised"]:
             continue
@@ -118,13 +125,13 @@ def gen(args):
             if not general_position(P2):
                 continue
             Hd2 = np.vstack([Hd, rng.integers(-5, 6, size=(k, nh))])
-            c2 = fit_case(cid + "-above", "added-above", P2, Hd2, order, [], s, tol)
+            c2 = fit_case(cid + "-above", "added-above", P2, Hd2, order, [], s, tol, xdt)
             c2.update({"nbase": N, "basesel": base["sel"], "basedq": base["dq"], "A": 1, "B": 0})
             out.append(c2)
         elif v == 1:     # positive affine map of the target
             A, B = int(rng.integers(1, 5)), int(rng.integers(-7, 8))
             P2 = P.copy(); P2[:, 0] = A * P[:, 0] + B
-            c2 = fit_case(cid + "-affine", "affine-y", P2, Hd, order, [], s, tol)
+            c2 = fit_case(cid + "-affine", "affine-y", P2, Hd, order, [], s, tol, xdt)
             c2.update({"nbase": N, "basesel": base["sel"], "basedq": base["dq"], "A": A, "B": B})
             out.append(c2)
     return out
